@@ -60,3 +60,19 @@ Proof.
   intros NN fexp score c draws st st'. unfold st'. rewrite src_run_is_run.
   apply OptStruct.C06_result_is_last_accepted.
 Qed.
+
+(* C20: as long as it has not stopped, the run assembled from the source's pieces WITH a convergence threshold agrees with
+   the run without it (the prefix property the twin-run monitor of the harness tests on the implementation) *)
+From PV Require Import proofs.OptConv.
+Theorem source_convergence_prefix :
+  forall (NN : Num) (fexp : carrier NN -> carrier NN) (score : N -> list (carrier NN) -> option (carrier NN))
+         (c : cfg NN) (eps : carrier NN) (draws : list (draw NN)),
+    conv NN c = Some eps ->
+    forall a b : ost NN, agree NN a b -> conv_fin NN a ->
+      converged NN (fold_left (src_advance NN fexp score c) draws a) = false ->
+      agree NN (fold_left (src_advance NN fexp score c) draws a)
+               (fold_left (src_advance NN fexp score (no_conv NN c)) draws b).
+Proof.
+  intros NN fexp score c eps draws Hc a b Hab Hfin Hconv. rewrite !src_run_is_run in *.
+  exact (OptConv.C20_convergence_prefix NN fexp score c eps draws Hc a b Hab Hfin Hconv).
+Qed.
